@@ -38,6 +38,44 @@ INPUT_TAGS = {'NEXT_IN', 'DICT', 'SRC', 'BUF'}
 PERSISTENT = {'STREAM', 'STATE', 'LEVELBUF', 'BB', 'HIST', 'HASHTBL', 'HEAP', 'GLOBAL', 'MATCHLOOKUP'}
 
 
+def check_c_loads(rep):
+    """portable match finders: every multi-byte read of the input stays below start_in + avail_in"""
+    import llir, irrules, enddist
+    import c19
+    R = rep.rule('M-ENDDIST-C', 'portable match finders (isal_deflate_body_base, isal_deflate_finish_base and their ICF counterparts): every load_le_u32/u64 of the input at pointer p satisfies p + width <= start_in + avail_in '
+                 'where it executes - difference bounds to the end pointer from the dominating pointer comparisons, the constant look-ahead margins and the contract of compare258 (result <= max_length <= 258)', floor=4, unit='functions')
+    mod = llir.library('default')
+    zs = c19.field_offsets('struct isal_zstream', ['avail_in', 'next_in'])
+    for fn in ('isal_deflate_body_base', 'isal_deflate_finish_base', 'isal_deflate_icf_body_hash_hist_base', 'isal_deflate_icf_finish_hash_hist_base'):
+        f = mod.funcs.get(fn)
+        if f is None:
+            raise AnalysisBroken(fn + ' not found')
+        R.instance()
+        P = irrules.prov(mod, f)
+        ends = []
+        for i in f.all_insns():
+            if i.op == 'getelementptr' and len(i.extra.get('idx', [])) == 1 and i.extra['basety'].strip() == 'i8':
+                x = i.extra['idx'][0].split()[-1]
+                if ('mem', ('param', 0, zs['avail_in'])) in P.deps(x) and ('ld', ('param', 0, zs['next_in']), 0) in P.atoms(i.ops[0]):
+                    ends.append(i)
+        if not ends:
+            raise AnalysisBroken('%s: end_in = next_in + avail_in not found' % fn)
+        ed = enddist.EndDist(mod, f, ends[0].dst).run()
+        n = 0
+        for i in f.all_insns():
+            m = re.match(r'^load_(le|be)_u(\d+)', i.callee or '') if i.op == 'call' else None
+            if not m:
+                continue
+            n += 1
+            W = int(m.group(2)) // 8
+            d = ed.d_eff(i.args[0][1], i.block)
+            R.check(d is not None and d + W <= 0, mod.where(f, i), '%s: %d-byte read at a pointer that is only known to be %s the end of the input: it can reach %s bytes past start_in + avail_in' %
+                    (fn, W, ('%d bytes below' % -d) if d is not None and d <= 0 else ('up to %d bytes beyond' % d if d is not None else 'somewhere relative to'), (d + W) if d is not None else 'an unknown number of'),
+                    key='M-ENDDIST-C|%s|%d' % (fn, n), sample='%s: %d-byte read at <= end%+d' % (fn, W, d) if d is not None else None)
+        if n < 2:
+            raise AnalysisBroken('%s: expected the position and hash-update reads, found %d' % (fn, n))
+
+
 def main(tier):
     rep = Report('C05', tier, level='other')
     rep.undecided = UNDECIDED
@@ -131,6 +169,7 @@ def main(tier):
                              key='P-NO-RETAIN-ASM|%s|%s' % (sym, tag_name(a.addr)), sample='%s: next_in written back to its own field' % sym if home and sym.endswith('_01') else None)
             if n == 0:
                 RN.ok(1)
+    check_c_loads(rep)
     import bounds
     bounds.check(rep, {'raid_pq_gen', 'raid_pq_check', 'ec_dot_prod', 'ec_mad', 'ec_mul', 'mem_zero'}, 'BLOCK', 77)
     bounds.check(rep, {'crc', 'crc_copy', 'adler'}, 'CRC', 30)
